@@ -1672,8 +1672,12 @@ class FileBuilder:
         operation = self._operation
         filename = operation.filename
         operation.raised = True
-        self._build_dirs.error_building_file(filename)
+        # Remove the file before releasing the reservations on its parent
+        # directories. Otherwise, another thread could find the file in a
+        # directory we no longer reserve and conclude that the directory has
+        # contents we don't know about.
         FileBuilder._try_to_remove_file(filename)
+        self._build_dirs.error_building_file(filename)
         logger.warning(
             'Failed to rebuild {:s}, due to an exception'.format(filename))
 
